@@ -172,6 +172,8 @@ type relayRig struct {
 	flushSeq    int
 	upRules     [][2]string // header_upstream
 	downRules   [][2]string
+	countFails  bool // one host with fail_timeout: what is counted as a backend failure (client aborts must not be)
+	uhosts      []*proxy.UpstreamHost
 	regexRules  bool // three-argument rules: header_downstream X-Dup (regexp -> replacement), header_upstream X-A
 	transparent bool
 	keepalive0  bool
@@ -224,6 +226,7 @@ func setupRelayProxy(c *casket.Controller) error {
 			if !ok {
 				return fmt.Errorf("harness: unexpected transport %T", h.ReverseProxy.Transport)
 			}
+			rig.uhosts = append(rig.uhosts, h)
 			tr.Proxy = nil
 			tr.DialContext = nil
 			rig.transports = append(rig.transports, tr)
@@ -525,6 +528,7 @@ func runRelayIn(c *sim.Ctl, mode string) {
 		}
 	}
 	r.regexRules = pick(25)
+	r.countFails = r.hosts == 1 && !r.faults && mode == "C04" && pick(40)
 	var b strings.Builder
 	b.WriteString("http://r.test:0 {\n\tbind 127.0.0.1\n\tsimnet v0\n")
 	if r.limit > 0 {
@@ -534,6 +538,9 @@ func runRelayIn(c *sim.Ctl, mode string) {
 		fmt.Fprintf(&b, "\tsimrelay /api http://10.7.0.1:80%s http://10.7.0.2:80%s {\n\t\tpolicy first\n\t\ttry_duration 2s\n\t\ttry_interval 7ms\n\t\tfail_timeout 10s\n", r.base, r.base)
 	} else {
 		fmt.Fprintf(&b, "\tsimrelay /api http://10.7.0.1:80%s {\n", r.base)
+		if r.countFails {
+			b.WriteString("\t\tfail_timeout 10s\n\t\tmax_fails 1\n")
+		}
 	}
 	if r.without != "" {
 		fmt.Fprintf(&b, "\t\twithout %s\n", r.without)
@@ -614,6 +621,16 @@ func runRelayIn(c *sim.Ctl, mode string) {
 	}
 	c.Settle(300)
 	r.judge()
+	if r.countFails {
+		// no backend misbehaved in this run: whatever the clients did, nothing counts against the backend
+		for i, h := range r.uhosts {
+			if n := atomic.LoadInt32(&h.Fails); n != 0 {
+				c.Violate("C14/client-abort-counted-as-backend-failure", "", "backend %d has a failure count of %d although it answered every request it got in full; the only faults were clients resetting their connection mid-request", i, n)
+			}
+		}
+		c.Probe("failure-count-after-client-aborts-checked")
+		c.Advance(11 * time.Second)
+	}
 	if r.hosts == 2 {
 		// let the failure marks of refused connections expire (each is a sleeping goroutine)
 		c.Advance(11 * time.Second)
@@ -699,7 +716,7 @@ func (r *relayRig) addReq(i int) {
 	}
 	// backend reply
 	sc := &bscript{status: []int{200, 200, 201, 404, 500, 302, 204, 304, 418}[st.Draw(9)]}
-	if pick(4) && r.hosts == 1 {
+	if pick(4) && r.hosts == 1 && !r.countFails {
 		// (only without failure counting: the bad answer marks the backend as failing)
 		// a status line no server may send, which net/http's client accepts all the same
 		sc.status = []int{99, 0, 42}[st.Draw(3)]
@@ -784,7 +801,7 @@ func (r *relayRig) addReq(i int) {
 		all = append(all, q.body...)
 	}
 	q.cl = &hclient{id: i, w: r.w, ip: "127.0.0.1", segs: cutBytes(st, all, st.Draw(3)), methods: []string{q.method}, holdOpen: false}
-	if r.faults && sc.fault == "" && st.Draw(8) == 0 {
+	if (r.faults && sc.fault == "" && st.Draw(8) == 0) || (r.countFails && st.Draw(3) == 0) {
 		q.cl.abortAt = 1 + st.Draw(len(q.cl.segs))
 		q.aborted = true
 	}
